@@ -10,7 +10,7 @@ import vlib, m2, m3
 from batch import Batch, J
 from props.c02 import HAND, defs_of, small_ints, typeless_struct
 
-PROOF_TARGETS = ["TypifyModel.Proofs.C03Valid", "TypifyModel.Proofs.C03", "TypifyModel.Proofs.C03Contain", "TypifyModel.Proofs.FlattenFindings", "TypifyModel.Proofs.Exclusive"]
+PROOF_TARGETS = ["TypifyModel.Proofs.C03Valid", "TypifyModel.Proofs.C03", "TypifyModel.Proofs.C03Contain", "TypifyModel.Proofs.FlattenFindings", "TypifyModel.Proofs.Exclusive", "TypifyModel.Proofs.SerdeAttrs", "TypifyModel.Proofs.StructProps"]
 PROOF_FILES = ["Proofs/C03Valid.lean", "Proofs/C03.lean", "Proofs/Lemmas/RoundTripLemmas.lean", "Proofs/Lemmas/RoundTripStruct.lean",
                "Proofs/Lemmas/RoundTripStruct2.lean", "Proofs/Lemmas/RoundTripMain.lean", "Proofs/Lemmas/RoundTripEnum.lean",
                "Proofs/Lemmas/SortedKv.lean", "Proofs/C03Contain.lean", "Proofs/Lemmas/ContainBasic.lean", "Proofs/Lemmas/ContainRefl.lean",
